@@ -5,6 +5,7 @@
 import Blackbird.Decode
 import Blackbird.Load
 import Blackbird.ErrorListener
+import Blackbird.Unparse
 
 open Blackbird
 
@@ -29,6 +30,31 @@ def withProgram (h : String) (k : Program Float → String) : String :=
 def encDumps (p : Program Float) : String :=
   match serialize p with
   | .ok ls => encLines ls
+  | .error e => encErr e
+
+/-- binary64 formatting for the UNPARSE command: a placeholder carrying the bit pattern; the harness
+compares it with the number CPython printed (`float(text)`), so no decimal printing is modelled -/
+instance : Fmt Float where
+  signbit x := x.toBits >>> 63 == 1
+  lt0 x := x < 0
+  abs x := x.abs
+  fmtAbs x := "f" ++ toString x.toBits
+
+def isNameText (s : String) : Bool :=
+  match s.toList with
+  | c :: cs => c.isAlpha && cs.all (fun d => d.isAlphanum || d == '_')
+  | [] => false
+
+/-- tokens of the script the serialiser model writes, one line end before every item -/
+def encUnparse (p : Program Float) : String :=
+  if p.ptype.1 = some "tdm" then "(ood tdm)" else
+  match scriptOf p with
+  | .ok sc =>
+    let dev := match sc.header.target with
+      | some (n, _) => !isNameText n
+      | none => false
+    let lay := List.replicate sc.items.length ((1 : Nat), ([] : List Nat))
+    " ".intercalate ((sc.toks ⟨0, 0, 0, 0, [], dev⟩ lay 1).map encTok)
   | .error e => encErr e
 
 /-- a history of `loads` calls in one process: tables threaded from call to call -/
@@ -89,6 +115,7 @@ def handle (line : String) : String :=
         | .ok p => encDumps p
         | .error e => encErr e
       | "DUMPS", [prog] => withProgram prog encDumps
+      | "UNPARSE", [prog] => withProgram prog encUnparse
       | "CALL", [prog, kw] =>
         withProgram prog fun p =>
           match sxParse kw with
